@@ -462,18 +462,20 @@ TypeOK ==
   /\ \A g \in G : loc[g].vi \in 1..(Len(prog[g]) + 1) /\ Len(out[g]) = loc[g].vi - 1
 -----------------------------------------------------------------------------
 \* Where each labelled access lives in the code: the function whose frame the race detector
-\* reports, the kind of access and the Go variable.  Exported to the conformance harness.
-LC(fn, k, var, dev) == [fn |-> fn, k |-> k, var |-> var, dev |-> dev]
+\* reports, the kind of access, the Go variable, and fragments of the source line (a report is
+\* attributed to a label only if its line contains one of them).  Exported to the harness.
+LC(fn, k, var, dev, src) == [fn |-> fn, k |-> k, var |-> var, dev |-> dev, src |-> src]
 LabelCode ==
-  [ at_read   |-> LC("(*Root).assureType", "R", "Object.meta", ""),
-    at_write  |-> LC("(*Root).assureType", "W", "Object.meta", ""),
-    rf_read   |-> LC("(*Root).regField", "R", "Object.meta", ""),
-    rf_read2  |-> LC("(*Root).regField", "R", "Object.meta", "RegFieldUnlockedMetaRead"),
-    rf_write  |-> LC("(*Root).regField", "W", "FieldDef.binding", ""),
-    rr_check  |-> LC("(*Root).resolveReflect", "R", "FieldDef.binding", ""),
-    rr_copy   |-> LC("(*Root).resolveReflect", "R", "FieldDef.binding", ""),
-    rr_use    |-> LC("(*Root).resolveReflect", "R", "FieldDef.binding", ""),
-    mc_read   |-> LC("(*Object).metaCheck", "R", "Object.meta", ""),
-    mc_write  |-> LC("(*Object).metaCheck", "W", "Object.meta", ""),
-    grt_read  |-> LC("(*Root).getReflectType", "R", "Object.meta", "") ]
+  [ at_read   |-> LC("(*Root).assureType", "R", "Object.meta", "", <<"obj.meta != nil && obj.meta != meta", "obj.meta.String()">>),
+    at_write  |-> LC("(*Root).assureType", "W", "Object.meta", "", <<"obj.meta = meta">>),
+    rf_read   |-> LC("(*Root).regField", "R", "Object.meta", "", <<":= obj.meta">>),
+    rf_read2  |-> LC("(*Root).regField", "R", "Object.meta", "RegFieldUnlockedMetaRead",
+                     <<"obj.meta.NumMethod()", "obj.meta.Method(i)", "goField, obj.meta)">>),
+    rf_write  |-> LC("(*Root).regField", "W", "FieldDef.binding", "", <<"fd.goField = ", "fd.method = ">>),
+    rr_check  |-> LC("(*Root).resolveReflect", "R", "FieldDef.binding", "", <<"len(fd.goField) == 0 && fd.method == nil">>),
+    rr_copy   |-> LC("(*Root).resolveReflect", "R", "FieldDef.binding", "", <<":= fd.goField", ":= fd.method">>),
+    rr_use    |-> LC("(*Root).resolveReflect", "R", "FieldDef.binding", "", <<"FieldByName(fd.goField)">>),
+    mc_read   |-> LC("(*Object).metaCheck", "R", "Object.meta", "", <<"t.meta == nil", "return t.meta">>),
+    mc_write  |-> LC("(*Object).metaCheck", "W", "Object.meta", "", <<"t.meta = rt">>),
+    grt_read  |-> LC("(*Root).getReflectType", "R", "Object.meta", "", <<"o.meta == meta">>) ]
 =============================================================================
